@@ -57,9 +57,31 @@ func Load(repo, tags string) (*World, error) {
 		renamed[fn.RelString(w.Types)] = true
 		renamed[unaliasTypes(fn.RelString(w.Types))] = true
 	}
+	// a known method turned into a plain function of the same name (or the reverse) is still the known routine: the rules
+	// find such routines by role (storeKindOf, hnswFn, …), the inliner must leave them in place
+	byShort := map[string][]string{}
+	for k := range funcInventory {
+		short := k
+		if i := strings.LastIndex(k, ")."); i >= 0 {
+			short = k[i+2:]
+		}
+		byShort[short] = append(byShort[short], k)
+	}
 	known := func(key string) bool {
-		_, ok := funcInventory[unaliasTypes(key)]
-		return ok || renamed[key] || renamed[unaliasTypes(key)]
+		if _, ok := funcInventory[unaliasTypes(key)]; ok || renamed[key] || renamed[unaliasTypes(key)] {
+			return true
+		}
+		short, isMethod := key, false
+		if i := strings.LastIndex(key, ")."); i >= 0 {
+			short, isMethod = key[i+2:], true
+		}
+		// only for the routines whose role discovery accepts either form (storeKindOf, hnswFn); any other helper that
+		// changed its receiver is taken apart by the inliner like a new helper
+		if cands := byShort[short]; len(cands) == 1 && roleAcceptsEitherForm[short] {
+			candIsMethod := strings.Contains(cands[0], ").")
+			return candIsMethod != isMethod
+		}
+		return false
 	}
 	overlay, notes, nerr := normalizeHelpers(repo, tags, os.Getenv("PATH"), known)
 	if nerr != nil || len(overlay) == 0 {
@@ -87,6 +109,9 @@ func Load(repo, tags string) (*World, error) {
 	w2.RoleNotes = append(w2.RoleNotes, "positions below refer to the source after these inlinings")
 	return w2, nil
 }
+
+// roleAcceptsEitherForm: routines found by structural role whether they are methods or plain functions.
+var roleAcceptsEitherForm = map[string]bool{"writeIndexToSegment": true, "flushMemtable": true, "selectNeighbors": true}
 
 // kindCacheReset lets caches keyed by *World drop entries of a discarded load.
 var kindCacheReset = map[string]func(){}
@@ -290,6 +315,12 @@ func (w *World) Method(T types.Type, m string) *ssa.Function {
 	for i := 0; i < ms.Len(); i++ {
 		if ms.At(i).Obj().Name() == m {
 			return w.Prog.MethodValue(ms.At(i))
+		}
+	}
+	// a known method that became a plain function taking the receiver first (roles.go)
+	for _, key := range []string{"(" + tstr(T, qual) + ")." + m, "(*" + tstr(T, qual) + ")." + m, "(" + strings.TrimPrefix(tstr(T, qual), "*") + ")." + m} {
+		if fn := w.byName[unaliasTypes(key)]; fn != nil && fn.Signature.Recv() == nil {
+			return fn
 		}
 	}
 	return nil
